@@ -133,8 +133,9 @@ Section Subst.
         * now apply IH.
     - destruct Hw as (Hn & We). auto.
     - destruct Hw as (Hn & We). auto.
-    - destruct Hw as (Ca & Wa & St & Wr). split; [now apply capable_subst|]. split; [auto|]. split; [|auto].
-      unfold starts_trigger in *. now rewrite trigger_head_subst.
+    - destruct Hw as (Ca & Wa & St & Wr & Hj). split; [now apply capable_subst|]. split; [auto|].
+      unfold starts_trigger in *. split; [now rewrite trigger_head_subst|]. split; [auto|].
+      rewrite (trigger_head_subst _ St). destruct a; simpl in *; try reflexivity; try discriminate; exact Hj.
     - destruct Hw as ((b & lvl & Hi) & Hp & Nl & Ol & Wl & Wr). split; [eauto|]. split; [exact Hp|].
       split; [now rewrite noabs_subst|]. split; [intros _; apply Fi; congruence|]. auto.
     - destruct Hw as (Hb & Hi & Hp & Nl & Ol & Wl). repeat split; auto. now rewrite noabs_subst.
